@@ -234,3 +234,23 @@ Section Gauge.
 End Gauge.
 
 Arguments qr_ok {R} M ans.
+
+(* the QR shape bound: a left move never increases the right bond dimension of the tensor, a right move never the left one *)
+Lemma qr_left_bond_bound (R : cring) (X : site R) (Q C : mx R) qb :
+  qr_ok (site_flat X) (Q, C, qb) -> sdr (site_unflat (length X) (sdl X) Q) <= sdr X.
+Proof.
+  intros (_ & _ & _ & _ & Hle & _). unfold site_flat in Hle. cbv zeta in Hle. cbn [nc tab] in Hle.
+  unfold sdr at 1, site_unflat, sel, tabl. destruct (length X) as [|n]; [cbn; lia|].
+  rewrite (nth_map_seq (zeromx 0 0)) by lia. cbn [nc tab]. exact Hle.
+Qed.
+Lemma qr_right_bond_bound (R : cring) (X : site R) (Q C : mx R) qb :
+  qr_ok (site_flat (site_tr X)) (Q, C, qb) ->
+  sdl (site_tr (site_unflat (length (site_tr X)) (sdl (site_tr X)) Q)) <= sdl X.
+Proof.
+  intros (_ & _ & _ & _ & Hle & _). unfold site_flat in Hle. cbv zeta in Hle. cbn [nc tab] in Hle.
+  assert (E : sdr (site_tr X) = sdl X).
+  { unfold sdr, sdl, site_tr, sel. destruct X as [|M X']; [reflexivity|]. reflexivity. }
+  rewrite E in Hle. unfold site_tr at 1. unfold sdl at 1, sel.
+  destruct (length (site_tr X)) as [|n] eqn:El; [cbn; lia|].
+  unfold site_unflat, tabl. cbn [seq map nth]. cbn [trmx nr tab]. exact Hle.
+Qed.
